@@ -71,6 +71,9 @@ type UnitOpts struct {
 	// invariants and panic sites are assumed (a partial contract for functions that are
 	// mostly outside the subset: goroutines, channels, closures stored in the heap).
 	AssertsOnly bool
+	// NoCover: no reachability (vacuity) checks for this unit (functions with genuinely dead error
+	// returns that are not under a contract of their own).
+	NoCover bool
 	// LocksOnly (C20): only guard obligations and clauses labelled locks-* are obligations.
 	LocksOnly bool
 	// Groups: if non-empty, only the labelled clauses (loop invariants, loopinv, ensures, assert@)
@@ -238,6 +241,8 @@ func (e *Engine) VerifyFunc(name string, opts UnitOpts) (u *Unit, err error) {
 			w := u.heapGet(st, "F:sync.RWMutex.writerSem", arrSort(SInt, SInt))
 			r := u.heapGet(st, "F:sync.RWMutex.readerSem", arrSort(SInt, SInt))
 			u.emitFact(T{fmt.Sprintf("(forall ((m!q Int)) (! (and (= (select %s m!q) 0) (= (select %s m!q) 0)) :pattern ((select %s m!q)) :pattern ((select %s m!q))))", w.S, r.S, w.S, r.S), SBool})
+			pm := u.heapGet(st, "F:sync.Mutex.sema", arrSort(SInt, SInt))
+			u.emitFact(T{fmt.Sprintf("(forall ((m!q Int)) (! (= (select %s m!q) 0) :pattern ((select %s m!q))))", pm.S, pm.S), SBool})
 			u.note("lock tracking: " + name + " is entered without holding any mutex")
 		}
 	}
